@@ -64,7 +64,10 @@ CONSTANTS
 VARIABLES scn, pc, gi, wts, mcw, bk, acc, sw, im, ib, tot, trail
 vars == <<scn, pc, gi, wts, mcw, bk, acc, sw, im, ib, tot, trail>>
 
-AllKinds == {"default", "extended", "cfit", "cfit_ext", "cfit_cached", "simple"}
+AllKinds == {"default", "extended", "cfit", "cfit_ext", "cfit_cached", "simple", "simple_pen"}
+\* "simple_pen": a custom model (custom.py BaseCustomModel) whose NLL part of batch idx = 0 carries a term
+\* that belongs to the data set, not to the batch (constr_frac: the fit-fraction penalty
+\* 1/2 ((I_k/I - value)/sigma)^2 of eval_nll_part, custom.py:257-268): it must enter once per data set
 CfitKinds == {"cfit", "cfit_ext", "cfit_cached"}
 ExtKinds == {"extended", "cfit_ext"}
 
@@ -139,6 +142,9 @@ ED == << <<1, 2, 1, 1, 2>>, <<2, 1, 1, 2, 1>> >>         \* efficiency at data e
 EM == << <<2, 1, 1>>, <<1, 1, 2>> >>                      \* efficiency at MC events
 BD == << <<1, 2, 1, 3, 2>>, <<2, 1, 3, 1, 1>> >>         \* background function at data events
 BM == << <<1, 3, 2>>, <<2, 1, 1>> >>                      \* background function at MC events
+GK == << <<1, 1, 2>>, <<2, 1, 1>> >>                      \* |A_k|^2 of the constrained component at MC events (simple_pen)
+PenValue == <<1, 5>>                                     \* value and sigma of the fit-fraction constraint
+PenSigma == <<1, 2>>
 
 ND(g) == Len(g.dw)
 NAll(g) == Len(g.dw) + g.nb
@@ -149,6 +155,9 @@ SigD(s, k, i) == QMul(QInt(ED[k][i]), AmpD(s, k, i))
 SigM(s, k, j) == QMul(QInt(EM[k][j]), AmpM(s, k, j))
 BgD(k, i) == QInt(BD[k][i])
 BgM(k, j) == QInt(BM[k][j])
+AmpK(s, k, j) == QInt(s.fscale * GK[k][j])
+\* the once-per-data-set term as a function of the two normalisation factors (both scale with the amplitude)
+Penalty(ik, i) == LET d == QDiv(QSub(QDiv(ik, i), PenValue), PenSigma) IN QDiv(QMul(d, d), QInt(2))
 
 --------------------------------------------------------------------------
 (* DEFINITION                                                               *)
@@ -164,6 +173,7 @@ Integral(g, H(_)) == QDiv(QSumF([j \in 1..NM(g) |-> QMul(MCW(g)[j], H(j))], 1, N
 IntAmp(s, k) == LET g == s.groups[k] AmpJ(j) == AmpM(s, k, j) IN Integral(g, AmpJ)
 IntSig(s, k) == LET g == s.groups[k] SigJ(j) == SigM(s, k, j) IN Integral(g, SigJ)
 IntBg(s, k) == LET g == s.groups[k] BgJ(j) == BgM(k, j) IN Integral(g, BgJ)
+IntK(s, k) == LET g == s.groups[k] KJ(j) == AmpK(s, k, j) IN Integral(g, KJ)
 Mix(phi, sg, isg, b, ibg) ==                       \* (1-phi) s/I_s + phi b/I_b
     QAdd(QMul(QSub(QOne, phi), QDiv(sg, isg)), QMul(phi, QDiv(b, ibg)))
 
@@ -175,6 +185,10 @@ DefGroup(s, k) ==
     IN IF s.kind \in {"default", "simple"} THEN
            VScale(QNeg(a), VSub(VSumF([i \in 1..n |-> VScale(w[i], VLn(AmpD(s, k, i)))], 1, n),
                                 VScale(SumW(g), VLn(IntAmp(s, k)))))
+       ELSE IF s.kind = "simple_pen" THEN
+           VAdd(VScale(QNeg(a), VSub(VSumF([i \in 1..n |-> VScale(w[i], VLn(AmpD(s, k, i)))], 1, n),
+                                     VScale(SumW(g), VLn(IntAmp(s, k))))),
+                VQ(Penalty(IntK(s, k), IntAmp(s, k))))
        ELSE IF s.kind = "extended" THEN
            VScale(QNeg(a), VSub(VSumF([i \in 1..n |-> VScale(w[i], VLn(AmpD(s, k, i)))], 1, n),
                                 VQ(QMul(SumW(g), IntAmp(s, k)))))
@@ -258,7 +272,7 @@ LoB(k, b) == (k - 1) * b + 1                            \* _data_split: range(0,
 HiB(k, b, n) == IF k * b < n THEN k * b ELSE n
 Lo(k) == LoB(k, scn.batch)
 Hi(k, n) == HiB(k, scn.batch, n)
-McFirst == scn.kind \in CfitKinds \cup {"simple"}       \* cfit.py:107, custom.py:125: integrals first
+McFirst == scn.kind \in CfitKinds \cup {"simple", "simple_pen"}       \* cfit.py:107, custom.py:125: integrals first
 
 \* Initial states are *seeds* (kind, path, constraints, scale, data weights of
 \* the first data set); the action Setup completes a seed to every scenario it
@@ -322,6 +336,10 @@ DataBatch ==
              ELSE IF scn.kind = "simple" THEN       \* custom.py:189-192: nll part of the batch, integral known
                  VAdd(VNeg(VSumF([i \in lo..hi |-> VScale(wts[i], VLn(AmpD(scn, gi, i)))], lo, hi)),
                       VScale(swb, VLn(im)))
+             ELSE IF scn.kind = "simple_pen" THEN   \* custom.py:257-268: as simple, plus the penalty `if idx == 0`
+                 VAdd(VAdd(VNeg(VSumF([i \in lo..hi |-> VScale(wts[i], VLn(AmpD(scn, gi, i)))], lo, hi)),
+                           VScale(swb, VLn(im))),
+                      IF bk = 1 THEN VQ(Penalty(ib, im)) ELSE VZero)       \* bk = idx + 1 (custom.py:134 enumerate)
              ELSE                                   \* cfit: w ln prob(x; v_int_sig, v_int_bg)
                  VSumF([i \in lo..hi |->
                      VScale(wts[i], VLn(Mix(Grp.phi, SigD(scn, gi, i), im, BgD(gi, i), ib)))], lo, hi)
@@ -350,6 +368,8 @@ MCBatch ==
        IN /\ im' = QAdd(im, QSumF([j \in lo..hi |-> QMul(mcw[j], dens(j))], lo, hi))
           /\ ib' = IF scn.kind \in CfitKinds
                    THEN QAdd(ib, QSumF([j \in lo..hi |-> QMul(mcw[j], BgM(gi, j))], lo, hi))
+                   ELSE IF scn.kind = "simple_pen"      \* second normalisation factor of eval_normal_factors (custom.py:243-255)
+                   THEN QAdd(ib, QSumF([j \in lo..hi |-> QMul(mcw[j], AmpK(scn, gi, j))], lo, hi))
                    ELSE ib
           /\ trail' = Append(trail, <<"m", lo, hi>>)
     /\ bk' = bk + 1
@@ -369,7 +389,7 @@ Combine ==
            val ==
              IF scn.kind = "default" THEN VAdd(VNeg(acc), VScale(sw, VLn(im)))          \* model.py:448, int_f = log
              ELSE IF scn.kind = "extended" THEN VAdd(VNeg(acc), VQ(QMul(sw, im)))       \* int_f = identity
-             ELSE IF scn.kind = "simple" THEN acc
+             ELSE IF scn.kind \in {"simple", "simple_pen"} THEN acc
              ELSE IF scn.kind = "cfit_ext" THEN                                         \* cfit.py:378-382
                  LET nexp == QDiv(im, QSub(QOne, Grp.phi))
                  IN VAdd(VNeg(acc), VAdd(VScale(QNeg(sw), VLn(nexp)), VQ(nexp)))
@@ -383,7 +403,7 @@ Combine ==
 \* more on the already blended weights (bg = None), alpha applied again
 ReBlend ==
     /\ pc = "value"
-    /\ IF scn.kind = "simple"                  \* BaseCustomModel.nll does not blend again
+    /\ IF scn.kind \in {"simple", "simple_pen"}   \* BaseCustomModel.nll does not blend again
        THEN wts' = wts
        ELSE LET s1 == QSumF(wts, 1, N)
                 s2 == QSumF([i \in 1..N |-> QMul(wts[i], wts[i])], 1, N)
@@ -411,6 +431,9 @@ ValueEval ==
              IF scn.kind = "default" THEN VScale(QNeg(a3), VSub(lnd, VScale(s1, VLn(QDiv(iamp, smc)))))
              ELSE IF scn.kind = "extended" THEN VScale(QNeg(a3), VSub(lnd, VQ(QMul(s1, QDiv(iamp, smc)))))
              ELSE IF scn.kind = "simple" THEN VAdd(VNeg(lnd), VScale(s1, VLn(iamp)))
+             ELSE IF scn.kind = "simple_pen" THEN        \* custom.py:42-44: eval_nll_part(data, weight, int_mc, idx=0)
+                 VAdd(VAdd(VNeg(lnd), VScale(s1, VLn(iamp))),
+                      VQ(Penalty(QSumF([j \in 1..nm |-> QMul(mcw[j], AmpK(scn, gi, j))], 1, nm), iamp)))
              ELSE IF scn.kind = "cfit_ext" THEN VAdd(mixt, VAdd(VScale(QNeg(s1), VLn(nexp)), VQ(nexp)))
              ELSE mixt
        IN tot' = VAdd(tot, val)
@@ -479,7 +502,7 @@ Post ==
     /\ LET crs == IF EmitMax > 0 THEN CoresX(0) ELSE {}
        IN JsonSerialize(IOEnv.OUT_FILE,
             [ncores |-> Cardinality(crs),
-             tables |-> [FD |-> FD, GM |-> GMTab, ED |-> ED, EM |-> EM, BD |-> BD, BM |-> BM],
+             tables |-> [FD |-> FD, GM |-> GMTab, ED |-> ED, EM |-> EM, BD |-> BD, BM |-> BM, GK |-> GK, pen |-> <<PenValue, PenSigma>>],
              \* the batches of a sample of n events for batch size b (what Partition is about), for the
              \* comparison with the batches the code actually processes
              parts |-> {<<n, b, [k \in 1..NBatches(n, b) |-> HiB(k, b, n) - LoB(k, b) + 1]>> :
